@@ -6,6 +6,10 @@ aid, prop = sys.argv[1], sys.argv[2].upper()
 src = '/tmp/agents/%s/verif' % aid
 dst = '/verif'
 out = subprocess.run(['git', 'status', '--short', '-uall'], cwd=src, stdout=subprocess.PIPE).stdout.decode()
+base = sys.argv[3] if len(sys.argv) > 3 else None
+if base:
+    out2 = subprocess.run(['git', 'diff', '--name-status', base, 'HEAD'], cwd=src, stdout=subprocess.PIPE).stdout.decode()
+    out += ''.join('?? %s\n' % l.split('\t')[1] for l in out2.splitlines() if l.startswith('A'))
 for line in out.splitlines():
     st, path = line[:2], line[3:]
     if st == '??' and not path.startswith(('evidence/', 'replays/', '.work/')):
